@@ -272,7 +272,23 @@ def expand(prog: 'object') -> list[str]:
                         elif isinstance(st, ast.AnnAssign) and isinstance(st.value, ast.Call):
                             call, target = st.value, st.target
                         done = False
-                        if call is not None:
+                        # --- R shape: `return helper(...)`: the helper's returns become the caller's returns
+                        if isinstance(st, ast.Return) and isinstance(st.value, ast.Call):
+                            r = resolve(caller, st.value)
+                            if r and r[0] is not caller and _as_expr(_body(r[0].node)) is None:
+                                h, is_m, recv = r
+                                counter += 1
+                                inst = instantiate(caller, h, st.value, is_m, recv, counter)
+                                if inst is not None:
+                                    pre, nb = inst
+                                    if not (nb and isinstance(nb[-1], (ast.Return, ast.Raise))):
+                                        nb = nb + [ast.copy_location(ast.Return(value=ast.copy_location(ast.Constant(value=None), st)), st)]
+                                    blk[i:i + 1] = pre + nb
+                                    touched[caller.qualname] = caller
+                                    log.append(f'{caller.short}: expanded returned call of new helper {h.short}')
+                                    changed = True
+                                    done = True
+                        if call is not None and not done:
                             r = resolve(caller, call)
                             if r and r[0] is not caller:
                                 h, is_m, recv = r
